@@ -1,5 +1,5 @@
 SPECIFICATION Spec
-CONSTANTS Sizes = {3, 4} CSizes = {1, 2, 3, 4, 5, 64} MaxZero = 2 Defect = "none"
+CONSTANTS Sizes = {3, 4, 5} CSizes = {1, 2, 3, 4, 5, 6, 64} MaxZero = 2 Defect = "none"
 INVARIANTS NotBad CleanMeansComplete CounterIsIndex
 PROPERTY Terminates
 CHECK_DEADLOCK FALSE
